@@ -16,6 +16,14 @@ use std::collections::HashSet;
 
 verus! {
 
+// std specifications vstd does not carry (sound: they say what the std functions do)
+pub assume_specification<T, F: FnOnce(T) -> bool>[ Option::<T>::is_none_or ](o: Option<T>, f: F) -> (r: bool)
+    requires o matches Some(v) ==> f.requires((v,)),
+    ensures o is None ==> r, o matches Some(v) ==> f.ensures((v,), r);
+pub assume_specification<T, F: FnOnce(T) -> bool>[ Option::<T>::is_some_and ](o: Option<T>, f: F) -> (r: bool)
+    requires o matches Some(v) ==> f.requires((v,)),
+    ensures o is None ==> !r, o matches Some(v) ==> f.ensures((v,), r);
+
 pub struct RuntimeError { pub code: u8 }
 pub type RuntimeResult<T> = Result<T, RuntimeError>;
 pub type RowId = u64;
@@ -29,6 +37,10 @@ pub enum DataType { BigUInt(UInt64), Null, Other(Opaque) }
 
 #[verifier::external_body]
 pub struct Schema { _p: () }
+#[verifier::external_body]
+pub struct TableConstraints { _p: () }
+impl TableConstraints { #[verifier::external_body] pub fn is_empty(&self) -> bool { unimplemented!() } #[verifier::external_body] pub fn len(&self) -> usize { unimplemented!() } }
+impl Schema { #[verifier::external_body] pub fn constraints(&self) -> Option<&TableConstraints> { unimplemented!() } }
 #[verifier::external_body]
 pub struct TableName { _p: () }
 #[verifier::external_body]
